@@ -70,6 +70,40 @@ impl<Msg: Eq + Hash> Network<Msg> {
         ensures *final(self) == net_drop(*old(self), envelope)
     { unimplemented!() }
 }
+// `Network::iter_deliverable` returns /repo's `NetworkDeliverableIter` ("an iterator over all distinct deliverable
+// envelopes in the network"): an opaque iterator whose remaining items are a sequence of envelopes.
+#[verifier::external_body]
+#[verifier::reject_recursive_types(Msg)]
+struct NetworkDeliverableIter<'a, Msg> { it: std::marker::PhantomData<&'a Msg> }
+impl<'a, Msg> NetworkDeliverableIter<'a, Msg> {
+    // the envelopes still to be yielded, in order
+    uninterp spec fn view(&self) -> Seq<Envelope<Msg>>;
+    // TRUSTED (`Iterator::next`: "Advances the iterator and returns the next value. Returns None when iteration is
+    // finished"): yields the first remaining envelope (by reference to its message), if any
+    #[verifier::external_body]
+    fn next(&mut self) -> (r: Option<Envelope<&'a Msg>>)
+        ensures
+            old(self)@.len() == 0 ==> r is None && final(self)@ == old(self)@,
+            old(self)@.len() > 0 ==> r is Some && env_val(r->Some_0) == old(self)@[0] && final(self)@ == old(self)@.drop_first(),
+    { unimplemented!() }
+}
+impl<Msg: Eq + Hash> Network<Msg> {
+    // TRUSTED (contract of /repo `Network::iter_deliverable`, unit NET `deliverable_next.*`): the envelopes it
+    // yields are `net_deliverable(self)`, a function of the network value
+    #[verifier::external_body]
+    fn iter_deliverable(&self) -> (r: NetworkDeliverableIter<'_, Msg>)
+        ensures r@ == net_deliverable(*self)
+    { unimplemented!() }
+}
+// `Envelope<&Msg>::to_cloned_msg` (/repo/src/actor/network.rs), copied mechanically
+impl<Msg> Envelope<&Msg> {
+/*@fn src/actor/network.rs :: impl<Msg> Envelope<&Msg> :: to_cloned_msg
+requires:
+    [clone] clone_eq::<Msg>()
+ensures:
+    [val] r == env_val(*self)
+@*/
+}
 // TRUSTED (A-CLONE / A-DERIVE): `#[derive(Clone)]` on `Network` returns an equal value
 impl<Msg: Eq + Hash> Clone for Network<Msg> {
     #[verifier::external_body]
